@@ -101,20 +101,37 @@ func readGpos5_1(p *parser.Parser, subtablePos int64) (Subtable, error) {
 		if err != nil {
 			return nil, err
 		}
+		// Array of offsets to Anchor tables, from the beginning of the
+		// LigatureAttach table: one row of markClassCount offsets for each
+		// ligature component.
+		numOffsets := int(componentCount) * markClassCount
+		if ligAttachPos+2+2*int64(numOffsets) > p.Size() {
+			return nil, &parser.InvalidFontError{
+				SubSystem: "sfnt/opentype/gtab",
+				Reason:    "GPOS5.1 LigatureAttach table too large",
+			}
+		}
+		anchorOffsets := make([]uint16, numOffsets)
+		for k := range anchorOffsets {
+			anchorOffsets[k], err = p.ReadUint16()
+			if err != nil {
+				return nil, err
+			}
+		}
 		ligAttach := make([][]anchor.Table, componentCount)
-
-		for j := 0; j < int(componentCount); j++ {
+		for j := range ligAttach {
 			row := make([]anchor.Table, markClassCount)
-			for j := range row {
-				if offsets[j] == 0 {
+			for k := range row {
+				offs := anchorOffsets[j*markClassCount+k]
+				if offs == 0 {
 					continue
 				}
-				row[j], err = anchor.Read(p, ligAttachPos+int64(offsets[j]))
+				row[k], err = anchor.Read(p, ligAttachPos+int64(offs))
 				if err != nil {
 					return nil, err
 				}
 			}
-			ligAttach[i] = row
+			ligAttach[j] = row
 		}
 
 		ligArray[i] = ligAttach
